@@ -12,7 +12,7 @@
    lfunc <name> <nlab>                          function with labels 0..nlab-1 (`ret 100+j`), entered by jmpi
    data <name|-> <ty> <nel> <hex|->
    bss <name|-> <len>
-   ref <name|-> <k> <disp>                      k = index of an earlier line (item, func, import, forward)
+   ref <name|-> <k> <disp>                      k = index of an earlier line (item, func, import, forward, export)
    expr <name|-> <k>                            k = index of an earlier efunc line
    lref <name|-> <k> <lab> <lab2|-> <disp>      k = index of an lfunc line (earlier or later)
    end
@@ -226,7 +226,7 @@ static int find_def (const char *name) {
 
 /* address the harness expects a reference to line t to denote (computed without MIR_link's help) */
 static char *target_addr (int t) {
-  if (is_kind (t, "forward")) {
+  if (is_kind (t, "forward") || is_kind (t, "export")) { /* a declaration: the address of the definition */
     int d = find_def (lines[t].tok[1]);
     return d < 0 ? NULL : lines[d].item->addr;
   }
